@@ -244,5 +244,7 @@ def replay(ctx, failure):
     common.ensure_repo_on_path()
     ops = pg.op_lines(scn, r)
     model = ctx.model.run('procstack', ops)
+    sigs = sorted(res['failures'])
     return dict(ops=ops, impl=pg.impl_lines(r), model=model, finals=r['finals'], error=r['error'],
-                failures=sorted(res['failures']), divergences=res['divergences'])
+                failures=[s for s in sigs if not s.startswith('hook-outside-scope:')],
+                known_finding_F14=[s for s in sigs if s.startswith('hook-outside-scope:')], divergences=res['divergences'])
